@@ -28,7 +28,13 @@ func md5hex(s string) string {
 	return hex.EncodeToString(h[:])
 }
 
-func marker(pre string) string { return "\x01H(" + pre + ")" }
+// marker: the lexeme `\u0001H(` + canonical escaping of the pre-image + `)` (same as Hm in the Lean driver).
+func marker(pre string) string {
+	var b strings.Builder
+	escStr(&b, pre)
+	e := b.String()
+	return "\\u0001H(" + e[1:len(e)-1] + ")"
+}
 
 // preimages of every primitive of the input document (independent of fastjson / fastfloat).
 func collectPre(v *jv, tbl map[string]string) {
@@ -187,13 +193,13 @@ func canonDoc(op, doc, out string, o *proto.Out) string {
 	}
 	hashed, clear := 0, 0
 	var b strings.Builder
-	canon(&b, ov, func(s string) string {
-		if pre, ok := tbl[s]; ok {
+	canon(&b, ov, func(dec, lexeme string) string {
+		if pre, ok := tbl[dec]; ok {
 			hashed++
 			return marker(pre)
 		}
 		clear++
-		return s
+		return lexeme
 	})
 	clear += countNonString(ov)
 	switch {
